@@ -489,6 +489,27 @@ func runC08(c *Ctx) {
 	}
 	c.Min("C08.O1", 1)
 
+	// ---- E1 the request builders do not write through what the caller hands them (keys, services, their property
+	// maps): two services sharing one properties map, or a document reused for a second request, must still build
+	// the request the caller asked for
+	{
+		var entries []*ssa.Function
+		for _, n := range []string{"PopulateRawServices", "PopulateRawPublicKeys", "PopulateRawAlsoKnownAs"} {
+			if f := c.Fn(pST+"/doc", n); f != nil {
+				entries = append(entries, f)
+			}
+		}
+		if f := c.Method(pST+"/doc", "Doc", "JSONBytes"); f != nil {
+			entries = append(entries, f)
+		}
+		if len(entries) == 4 {
+			c.runEffectQuiet("C08.E1", entries, func(f *ssa.Function) []*ssa.Parameter { return f.Params }, "request document builders", 4)
+		} else {
+			c.Unresolved("C08.E1", "sidetree/doc.PopulateRaw* / (*Doc).JSONBytes")
+		}
+	}
+	c.Min("C08.E1", 2)
+
 	// ---- X3: the signers the builders use and the verifier the parser/applier use agree per curve
 	c.signerVerifierTables("C08.X3")
 	c.Min("C08.X3", 12)
